@@ -24,76 +24,87 @@ CONSTANTS Sids,     \* session ids
           MaxOps,
           GenHist
 
-VARIABLES cons,     \* [{"A","B"} -> [reg, used, sess : [Sids -> [has, cu, rn, locked]]]]
-          out,      \* last request, verdict, state before (pre, xpre), state of an "X" signer after, proofs handed out
+VARIABLES cons,     \* [VEpochs -> [{"A","B"} -> [reg, used, sess : [Sids -> [has, cu, rn, locked]]]]]
+          out,      \* last request, verdict, state before (pre, xpre), state of an "X" signer after, the epochs for
+                    \* which the chain was asked about the pairing, proofs handed out
                     \* (an "X" signer is a fresh identity in the exhaustive runs; in recorded traces the same
                     \*  tampered bytes recover the same address again, so its state before the call is logged: xpre)
           nops, hist
 
 vars == <<cons, out, nops, hist>>
 Known == {"A", "B"}
+VEpochs == {"cur", "prev"}     \* epochs valid for use: the current one and an older one still in memory; "old" = blocked
 NoSess == [has |-> FALSE, cu |-> 0, rn |-> 0, locked |-> FALSE]
 Fresh == [reg |-> FALSE, used |-> 0, sess |-> [s \in Sids |-> NoSess]]
-NoReq == [nil |-> FALSE, provok |-> TRUE, specok |-> TRUE, lavaok |-> TRUE, epochok |-> TRUE, hashok |-> TRUE,
-          who |-> "none", pairing |-> "valid", parseok |-> TRUE, seenok |-> TRUE, addonok |-> TRUE,
+NoReq == [nil |-> FALSE, provok |-> TRUE, specok |-> TRUE, lavaok |-> TRUE, ep |-> "cur", epochok |-> TRUE, hashok |-> TRUE,
+          who |-> "none", pairing |-> [e \in VEpochs |-> "valid"], parseok |-> TRUE, seenok |-> TRUE, addonok |-> TRUE,
           sid |-> 0, cusum |-> 0, relaynum |-> 0]
-NoOut == [ev |-> "none", req |-> NoReq, served |-> FALSE, why |-> "", pre |-> [c \in Known |-> Fresh], xpre |-> Fresh, x |-> Fresh, proofs |-> {}]
+NoOut == [ev |-> "none", req |-> NoReq, served |-> FALSE, why |-> "", pre |-> [e \in VEpochs |-> [c \in Known |-> Fresh]],
+          xpre |-> Fresh, x |-> Fresh, asked |-> {}, proofs |-> {}]
 Record(r) == hist' = IF GenHist THEN Append(hist, r) ELSE hist
 
-\* the guard ladder on the state cs of the signer; result [served, why, cs, proofs]
+\* the guard ladder on the state cs of the signer in the request's epoch; result [served, why, cs, asked, proofs]
+\* r.pairing[e] = what the chain answers about (signer, this provider) for epoch e
 Handle(cs, r) ==
-  LET rej(why, st) == [served |-> FALSE, why |-> why, cs |-> st, proofs |-> {}] IN
-  IF r.nil THEN rej("nil", cs)
-  ELSE IF ~r.epochok THEN rej("epoch", cs)
-  ELSE IF ~r.provok THEN rej("provider", cs)
-  ELSE IF ~r.specok THEN rej("spec", cs)
-  ELSE IF ~r.lavaok THEN rej("lava", cs)
-  ELSE IF ~r.hashok THEN rej("hash", cs)
-  ELSE IF r.who = "none" THEN rej("sig", cs)
-  ELSE IF ~cs.reg /\ r.pairing = "error" THEN rej("pairing-error", cs)
-  ELSE IF ~cs.reg /\ r.pairing = "invalid" THEN rej("pairing-invalid", cs)
+  LET rej(why, st, asked) == [served |-> FALSE, why |-> why, cs |-> st, asked |-> asked, proofs |-> {}] IN
+  IF r.nil THEN rej("nil", cs, {})
+  ELSE IF ~r.epochok THEN rej("epoch", cs, {})
+  ELSE IF ~r.provok THEN rej("provider", cs, {})
+  ELSE IF ~r.specok THEN rej("spec", cs, {})
+  ELSE IF ~r.lavaok THEN rej("lava", cs, {})
+  ELSE IF ~r.hashok THEN rej("hash", cs, {})
+  ELSE IF r.who = "none" THEN rej("sig", cs, {})
+  ELSE
+  LET asked == IF cs.reg THEN {} ELSE {r.ep} IN       \* VerifyPairing(consumer, provider, request.Epoch, spec)
+  IF ~cs.reg /\ r.pairing[r.ep] = "error" THEN rej("pairing-error", cs, asked)
+  ELSE IF ~cs.reg /\ r.pairing[r.ep] = "invalid" THEN rej("pairing-invalid", cs, asked)
   ELSE
   LET s0 == cs.sess[r.sid]
       s1 == IF s0.has THEN s0 ELSE [NoSess EXCEPT !.has = TRUE]     \* createNewSingleProviderSession
       cs2 == [cs EXCEPT !.reg = TRUE, !.sess[r.sid] = s1]
-  IN IF s1.rn + 1 > r.relaynum THEN rej("relaynum", cs2)
-     ELSE IF ~r.parseok THEN rej("parse", cs2)
-     ELSE IF r.cusum < s1.cu + RC THEN rej("cumismatch", cs2)        \* missing CU not allowed (threshold 0)
+  IN IF s1.rn + 1 > r.relaynum THEN rej("relaynum", cs2, asked)
+     ELSE IF ~r.parseok THEN rej("parse", cs2, asked)
+     ELSE IF r.cusum < s1.cu + RC THEN rej("cumismatch", cs2, asked)        \* missing CU not allowed (threshold 0)
      ELSE LET add == r.cusum - s1.cu IN
-          IF cs2.used + add > MaxCU THEN rej("maxcu", cs2)
-          ELSE IF ~r.seenok THEN rej("seen", cs2)                    \* CU added, then rolled back by OnSessionFailure
-          ELSE IF ~r.addonok THEN rej("addon", cs2)
-          ELSE [served |-> TRUE, why |-> "",
+          IF cs2.used + add > MaxCU THEN rej("maxcu", cs2, asked)
+          ELSE IF ~r.seenok THEN rej("seen", cs2, asked)                    \* CU added, then rolled back by OnSessionFailure
+          ELSE IF ~r.addonok THEN rej("addon", cs2, asked)
+          ELSE [served |-> TRUE, why |-> "", asked |-> asked,
                 cs |-> [cs2 EXCEPT !.used = @ + add, !.sess[r.sid] = [s1 EXCEPT !.cu = r.cusum, !.rn = r.relaynum]],
-                proofs |-> IF add > 0 THEN {[c |-> r.who, sid |-> r.sid, cu |-> r.cusum]} ELSE {}]
+                proofs |-> IF add > 0 THEN {[c |-> r.who, ep |-> r.ep, sid |-> r.sid, cu |-> r.cusum]} ELSE {}]
 
 Relay(r) ==
-  LET cs == IF r.who \in Known THEN cons[r.who] ELSE Fresh
+  LET known == r.who \in Known /\ r.ep \in VEpochs
+      cs == IF known THEN cons[r.ep][r.who] ELSE Fresh
       h == Handle(cs, r)
-  IN /\ cons' = IF r.who \in Known THEN [cons EXCEPT ![r.who] = h.cs] ELSE cons
+  IN /\ cons' = IF known THEN [cons EXCEPT ![r.ep][r.who] = h.cs] ELSE cons
      /\ out' = [ev |-> "relay", req |-> r, served |-> h.served, why |-> h.why, pre |-> cons, xpre |-> Fresh,
-                x |-> IF r.who \in Known THEN Fresh ELSE h.cs, proofs |-> h.proofs]
+                x |-> IF known THEN Fresh ELSE h.cs, asked |-> h.asked, proofs |-> h.proofs]
      /\ Record(r)
 
 -----------------------------------------------------------------------------
-\* exhaustive exploration: the valid next request of consumer c on session sid, with at most one
-\* deviation, arriving with c's signature intact or (any signed field touched) as an unknown signer
+\* exhaustive exploration: the valid next request of consumer c on session sid in epoch ep, with at most
+\* one deviation, arriving with c's signature intact or (any signed field touched) as an unknown signer;
+\* the chain's pairing answer may differ between the two valid epochs
 Devs == {"none", "nil", "epoch", "prov", "spec", "lava", "hash", "nosig", "parse", "seen", "addon",
          "culow", "cuhigh", "cuover", "rn"}
-Req(c, sid, dev, tampered, pairing) ==
-  LET s == cons[c].sess[sid] IN
+Other(e) == IF e = "cur" THEN "prev" ELSE "cur"
+Req(c, ep, sid, dev, tampered, pairing, pairingOther) ==
+  LET s == cons[ep][c].sess[sid] IN
   [nil |-> dev = "nil", provok |-> dev # "prov", specok |-> dev # "spec", lavaok |-> dev # "lava",
-   epochok |-> dev # "epoch", hashok |-> dev # "hash",
+   ep |-> IF dev = "epoch" THEN "old" ELSE ep, epochok |-> dev # "epoch", hashok |-> dev # "hash",
    who |-> IF dev = "nosig" THEN "none" ELSE IF tampered THEN "X" ELSE c,
-   pairing |-> pairing, parseok |-> dev # "parse", seenok |-> dev # "seen", addonok |-> dev # "addon",
+   pairing |-> [e \in VEpochs |-> IF e = ep THEN pairing ELSE pairingOther],
+   parseok |-> dev # "parse", seenok |-> dev # "seen", addonok |-> dev # "addon",
    sid |-> sid,
    cusum |-> s.cu + RC + (CASE dev = "culow" -> -1 [] dev = "cuhigh" -> 1 [] dev = "cuover" -> MaxCU [] OTHER -> 0),
    relaynum |-> IF dev = "rn" THEN s.rn ELSE s.rn + 1]
 
-Init == cons = [c \in Known |-> Fresh] /\ out = NoOut /\ nops = 0 /\ hist = <<>>
+Init == cons = [e \in VEpochs |-> [c \in Known |-> Fresh]] /\ out = NoOut /\ nops = 0 /\ hist = <<>>
 Next == /\ nops < MaxOps /\ nops' = nops + 1
-        /\ \E c \in Known, sid \in Sids, dev \in Devs, tampered \in BOOLEAN, pairing \in {"valid", "invalid", "error"} :
-             Relay(Req(c, sid, dev, tampered, pairing))
+        /\ \E c \in Known, ep \in VEpochs, sid \in Sids, dev \in Devs, tampered \in BOOLEAN,
+              pairing \in {"valid", "invalid", "error"}, pairingOther \in {"valid", "invalid"} :
+             Relay(Req(c, ep, sid, dev, tampered, pairing, pairingOther))
 Spec == Init /\ [][Next]_vars
 
 -----------------------------------------------------------------------------
@@ -106,53 +117,59 @@ Kinds == <<"none", "none", "none", "none", "none", "none", "none", "none", "none
            "unparsable", "badaddon", "negseen">>
 GenNext == /\ nops < MaxOps /\ nops' = nops + 1
            /\ \E i \in {RandomElement(1..Len(Kinds))}, c \in {RandomElement({"A", "A", "B"})}, sid \in {RandomElement(Sids)},
-                 rs \in {RandomElement(BOOLEAN)}, p \in {RandomElement(1..4)} :
-                hist' = Append(hist, [signer |-> c, sid |-> sid, kind |-> Kinds[i], resign |-> rs,
-                                      pairing |-> IF p = 1 THEN "invalid" ELSE IF p = 2 THEN "error" ELSE "valid"])
+                 rs \in {RandomElement(BOOLEAN)}, p \in {RandomElement(1..4)}, q \in {RandomElement(1..2)},
+                 ep \in {RandomElement(VEpochs)} :
+                hist' = Append(hist, [signer |-> c, sid |-> sid, kind |-> Kinds[i], resign |-> rs, epoch |-> ep,
+                                      pairing |-> IF p = 1 THEN "invalid" ELSE IF p = 2 THEN "error" ELSE "valid",
+                                      pairingother |-> IF q = 1 THEN "invalid" ELSE "valid"])
            /\ UNCHANGED <<cons, out>>
 Emit == nops < MaxOps \/ PrintT(<<"BEH", ToJson(hist)>>)
 
 -----------------------------------------------------------------------------
 \* Properties (C39) - predicates on `out` (request, verdict, state before) and the state after
-Post(c) == IF c \in Known THEN cons[c] ELSE out.x
-Pre(c) == IF c \in Known THEN out.pre[c] ELSE out.xpre
-AuthenticReq(r) == /\ ~r.nil /\ r.provok /\ r.specok /\ r.lavaok /\ r.epochok /\ r.hashok
+EpOf(r) == IF r.ep \in VEpochs THEN r.ep ELSE "cur"         \* (only used where the request's epoch is valid)
+Post(e, c) == IF c \in Known THEN cons[e][c] ELSE out.x
+Pre(e, c) == IF c \in Known THEN out.pre[e][c] ELSE out.xpre
+AuthenticReq(r) == /\ ~r.nil /\ r.provok /\ r.specok /\ r.lavaok /\ r.epochok /\ r.ep \in VEpochs /\ r.hashok
                    /\ r.who # "none"
-                   /\ (Pre(r.who).reg \/ r.pairing = "valid")
+                   /\ (Pre(r.ep, r.who).reg \/ r.pairing[r.ep] = "valid")      \* paired in the REQUEST's epoch
 \* served only if the request names this provider / spec / lava chain, a valid epoch, a matching
-\* content hash and is signed by a consumer the chain pairs with this provider
+\* content hash and is signed by a consumer the chain pairs with this provider for that epoch
 ServesOnlyAuthentic == out.served => AuthenticReq(out.req)
+\* the chain is asked about the pairing only for the epoch the request names
+AsksRequestEpoch == out.asked \subseteq {out.req.ep}
 \* ... and the session layer accepted it (relay number fresh, CU within the limits)
 ServesOnlyInSync == out.served =>
-                      LET p == Pre(out.req.who).sess[out.req.sid] IN
+                      LET q == Pre(EpOf(out.req), out.req.who)  p == q.sess[out.req.sid] IN
                         /\ out.req.relaynum > p.rn /\ out.req.cusum >= p.cu + RC
-                        /\ Pre(out.req.who).used + (out.req.cusum - p.cu) <= MaxCU
+                        /\ q.used + (out.req.cusum - p.cu) <= MaxCU
                         /\ out.req.parseok /\ out.req.seenok /\ out.req.addonok
-\* rejected requests leave session and CU state unchanged; the only trace a rejected request may
-\* leave is the registration of its (chain-paired) signer and an empty session
+\* rejected requests leave session and CU state unchanged (in every epoch); the only trace a rejected
+\* request may leave is the registration of its (chain-paired) signer and an empty session in its epoch
 RejectKeeps ==
   (out.ev = "relay" /\ ~out.served) =>
-     /\ \A c \in Known \cup {"X"} :
-          /\ Post(c).used = Pre(c).used
-          /\ \A s \in Sids : Pre(c).sess[s].has => Post(c).sess[s] = Pre(c).sess[s]
-          /\ \A s \in Sids : (~Pre(c).sess[s].has /\ Post(c).sess[s].has) =>
-                /\ Post(c).sess[s].cu = 0 /\ Post(c).sess[s].rn = 0
-                /\ c = out.req.who /\ s = out.req.sid /\ AuthenticReq(out.req)
-          /\ (Post(c).reg /\ ~Pre(c).reg) => (c = out.req.who /\ AuthenticReq(out.req))
-          /\ (Pre(c).reg => Post(c).reg)
+     /\ \A e \in VEpochs : \A c \in Known \cup {"X"} :
+          /\ Post(e, c).used = Pre(e, c).used
+          /\ \A s \in Sids : Pre(e, c).sess[s].has => Post(e, c).sess[s] = Pre(e, c).sess[s]
+          /\ \A s \in Sids : (~Pre(e, c).sess[s].has /\ Post(e, c).sess[s].has) =>
+                /\ Post(e, c).sess[s].cu = 0 /\ Post(e, c).sess[s].rn = 0
+                /\ c = out.req.who /\ s = out.req.sid /\ (c \in Known => e = out.req.ep) /\ AuthenticReq(out.req)
+          /\ (Post(e, c).reg /\ ~Pre(e, c).reg) => (c = out.req.who /\ (c \in Known => e = out.req.ep) /\ AuthenticReq(out.req))
+          /\ (Pre(e, c).reg => Post(e, c).reg)
      /\ out.proofs = {}
 \* payment is claimed (a proof handed to the reward server) only for served requests, for exactly
-\* the signer / session / CU of the request
+\* the signer / epoch / session / CU of the request
 ProofOnlyIfServed == out.proofs # {} =>
                        /\ out.served
-                       /\ out.proofs = {[c |-> out.req.who, sid |-> out.req.sid, cu |-> out.req.cusum]}
-\* a served request is accounted exactly
+                       /\ out.proofs = {[c |-> out.req.who, ep |-> out.req.ep, sid |-> out.req.sid, cu |-> out.req.cusum]}
+\* a served request is accounted exactly, in its epoch only
 ServedAccounting == out.served =>
-                      LET c == out.req.who  p == Pre(c).sess[out.req.sid]  q == Post(c).sess[out.req.sid] IN
+                      LET c == out.req.who  e == EpOf(out.req)
+                          p == Pre(e, c).sess[out.req.sid]  q == Post(e, c).sess[out.req.sid] IN
                         /\ q.has /\ q.cu = out.req.cusum /\ q.rn = out.req.relaynum
-                        /\ Post(c).used = Pre(c).used + (out.req.cusum - p.cu)
-                        /\ \A d \in Known \ {c} : cons[d] = out.pre[d]
+                        /\ Post(e, c).used = Pre(e, c).used + (out.req.cusum - p.cu)
+                        /\ \A e2 \in VEpochs, d \in Known : (e2 # e \/ d # c) => cons[e2][d] = out.pre[e2][d]
 \* no session stays locked after the call returned
-NoLockLeak == \A c \in Known \cup {"X"} : \A s \in Sids : ~Post(c).sess[s].locked
-CuBound == \A c \in Known : cons[c].used <= MaxCU
+NoLockLeak == \A e \in VEpochs : \A c \in Known \cup {"X"} : \A s \in Sids : ~Post(e, c).sess[s].locked
+CuBound == \A e \in VEpochs : \A c \in Known : cons[e][c].used <= MaxCU
 =============================================================================
